@@ -235,11 +235,11 @@ def big_cases(max_L, max_L_2d, max_color, max_n, seed, n_random):
 
 def run(ctx):
     if ctx.tier == 'quick':
-        cases = small_cases(7) + big_cases(3, 4, 2, 120, ctx.seed, 40)
+        cases = small_cases(7) + big_cases(3, 4, 3, 120, ctx.seed, 40)
         n_scr = 320
         scr_n = 5
     else:
-        cases = small_cases(8) + big_cases(4, 6, 3, 800, ctx.seed, 120)
+        cases = small_cases(8) + big_cases(4, 6, 5, 800, ctx.seed, 120)
         n_scr = 3000
         scr_n = 6
     ctx.exhaustive = True
